@@ -136,7 +136,7 @@ func withDeadline(d time.Duration, f func()) bool {
 
 func checkC05(c *Ctx) {
 	r := c.Rng
-	c.Ev.Coverage.Rule = "Parse and ParseND on arbitrary bytes in 4 configurations, with and without a reused ParsedJson, each call under recover and a 30 s deadline; on every returned result all exported read methods are called from every AdvanceInto position (capped at 200) under recover and deadline; goroutine count before/after; the model's outcome for the same input must not be Crash/OutOfFuel. Streams: random bytes over a JSON-biased alphabet; every truncation and byte/token mutations of seed documents; nesting depth up to 10^5 (quick; one 10^6 probe in a child process re-confirms K1); maximally dense structurals ([[[[, ,,,,, [{},{}, \"\"\"\") at lengths around every multiple of 64, of 1408, 448/512 and 8192. non-trivial = input that reaches stage 2 or returns a result; distinct = by input bytes"
+	c.Ev.Coverage.Rule = "Parse and ParseND on arbitrary bytes in 4 configurations, with and without a reused ParsedJson, each call under recover and a 30 s deadline; on every returned result all exported read methods are called from every AdvanceInto position (capped at 200) under recover and deadline; goroutine count before/after; the model's outcome for the same input must not be Crash/OutOfFuel. Streams: random bytes over a JSON-biased alphabet; every truncation and byte/token mutations of seed documents; nesting depth up to 10^5 (quick; one 10^6 probe in a child process re-confirms K1); maximally dense structurals ([[[[, ,,,,, [{},{}, \"\"\"\") at lengths around every multiple of 64, of 1408, 448/512 and 8192; a full index buffer ending on a carried (non-markup) index followed by a structural-free tail of 63..300 bytes; documents above 8 KiB with a missing/extra bracket. non-trivial = input that reaches stage 2 or returns a result; distinct = by input bytes"
 	g0 := runtime.NumGoroutine()
 	var reuse *simdjson.ParsedJson
 	ncase := 0
@@ -255,6 +255,13 @@ func checkC05(c *Ctx) {
 				run("dense-structurals", []byte(strings.Repeat(u, L)), false)
 			}
 		}
+	}
+	for _, d := range denseThenTail(r) {
+		run("dense-then-tail", d, false)
+		run("dense-then-tail-nd", d, true)
+	}
+	for _, d := range bigUnbalanced(r, c.N(30, 300)) {
+		run("big-unbalanced", d, false)
 	}
 	time.Sleep(100 * time.Millisecond)
 	if g := runtime.NumGoroutine(); g > g0+4 {
